@@ -403,11 +403,12 @@ PROPS = {
     },
     "C15": {
         "lean_modules": ["Dbg.Props.C15"],
-        "theorems": ["DnaStr.Slice.get_slice", "DnaStr.Slice.slice_length", "DnaStr.Slice.slice_isSome", "DnaStr.Slice.get_rc_fwd",
+        "theorems": ["DnaStr.Slice.C15_observers", "DnaStr.Slice.C15_eq", "DnaStr.Slice.C15_constructors", "DnaStr.Slice.C15_history",
+                     "DnaStr.Slice.C15_slice_guard", "DnaStr.Slice.C15_getKmer", "DnaStr.Slice.C15_hamming",
+                     "DnaStr.Slice.get_slice", "DnaStr.Slice.slice_length", "DnaStr.Slice.slice_isSome", "DnaStr.Slice.get_rc_fwd",
                      "DnaStr.Slice.rc_rc", "DnaStr.Slice.rc_fields", "DnaStr.Slice.complement_spec", "DnaStr.Slice.sliceOf_spec",
                      "DnaStr.Slice.prefix_spec", "DnaStr.Slice.suffix_spec", "DnaStr.Slice.debug_eq_display"],
-        "partial": ["list-level characterisation of bytes/ascii/to_owned/== and hammingDist = countDiff (rests on the C14 refinement, not yet proved); "
-                    "get_kmer of a view (rests on the block walk of C13)"],
+        "partial": [],
         "n_quick": 6000, "n_thorough": 400000,
         "nontrivial": lambda toks, impl: impl != "panic" and (toks[1] == "ham" or toks[3].count(",") >= 1), "tags": _c15_tags,
         "shrink": _c15_shrink,
@@ -434,11 +435,12 @@ PROPS = {
         "assumptions": ["len <= max_len, positions < len, run inside the string"],
     },
     "C13": {
-        "lean_modules": ["Dbg.Props.C13"],
-        "theorems": ["KIter.C13_bytes_getKmer", "KIter.C13_bytes_getKmer_guard"],
-        "partial": ["block walk of DnaString/Lmer::get_kmer (induction over blocks using C10_setSlice), the slice remap, KmerIter/KmerExtsIter "
-                    "state machines, first/last/term accessors: modelled and executed against the crate and the window reference on every run, "
-                    "theorems not yet written"],
+        "lean_modules": ["Dbg.Props.C13", "Dbg.Props.C10"],
+        "theorems": ["KIter.C13_dnaString", "KIter.C13_dnaString_guard", "KIter.C13_slice", "KIter.C13_bytes", "KIter.C13_iter", "KIter.C13_iter_exts",
+                     "KIter.C13_specExt", "KIter.C13_term", "KIter.C13_iter_eq_getKmer", "KIter.C13_bytes_getKmer", "KIter.C13_bytes_getKmer_guard",
+                     "Kmer.C10_kmersFromBytes", "Kmer.C10_kmersFromAscii"],
+        "partial": ["Lmer as a faithful container (its get_kmer uses the same block walk, proved for any storage in DnaStr.walk_spec; the "
+                    "length-byte bookkeeping is C17's multi-word refinement, not yet proved)"],
         "n_quick": 12000, "n_thorough": 800000,
         "nontrivial": lambda toks, impl: impl not in ("panic", "-"), "tags": _c13_tags,
         "rule": "requests `<ktype> getkmer|iter|iterexts|term <container> <seq> [arg]` over 12 k-mer types (K = 2..64, all five storage widths) and "
